@@ -1063,8 +1063,11 @@ def _h_tls(world: World) -> None:
                 if guard > 50000:
                     raise StepCap("C12 tls: the link did not drain within 50000 ticks")
         finally:
-            with backend.move_on_after(5.0):
+            # generous: on the slowest links (7 bytes per tick) what cancelled lock owners left in the socket transport's buffer, plus the
+            # close_notify, can take minutes of virtual time; a close cut short by THIS bound truncates the stream by the harness's own doing
+            with backend.move_on_after(600.0) as close_scope:
                 await tls.aclose()
+            state["close_cut"] = close_scope.cancelled_caught()
             state["closed"] = True
 
     try:
@@ -1079,6 +1082,9 @@ def _h_tls(world: World) -> None:
         raise HarnessError("C12 tls: run ended before the transport was closed")
     # the loop is gone; let the link deliver what is still in flight (e.g. what a cancelled owner left in the socket buffer)
     _drain_world(world, lambda: peer.fin_seen or peer.rst_seen or peer.engine.error is not None)
+    if state.get("close_cut"):
+        world.probe("tls-close-cut-short-by-the-harness")  # the harness aborted a close that was still flushing: truncation is its own doing
+        return
     if not std_compat and peer.engine.saw_ragged_eof and peer.fin_seen:
         world.probe("tls-closed-without-shutdown")  # EOF without close_notify is what standard_compatible=False produces
     elif peer.engine.error is not None:
